@@ -664,7 +664,7 @@ static void gen_workload(uint64_t seed, uint64_t widx, const GenOpts& go, Plan& 
   pl.tasks.resize((size_t)nt);
   // swarm: enabled families
   std::string fams;
-  for (char f = 'A'; f <= 'G'; ++f)
+  for (char f = 'A'; f <= 'H'; ++f)
     if (go.only_family.empty() ? r.coin(0.55) : go.only_family.find(f) != std::string::npos) fams += f;
   std::vector<const OpDef*> defs;
   auto collect = [&](const std::string& fs) {
@@ -677,7 +677,7 @@ static void gen_workload(uint64_t seed, uint64_t widx, const GenOpts& go, Plan& 
     }
   };
   collect(fams);
-  if (defs.empty()) collect(go.only_family.empty() ? "ABCDEFG" : go.only_family);
+  if (defs.empty()) collect(go.only_family.empty() ? "ABCDEFGH" : go.only_family);
   if (defs.empty()) {
     fprintf(stderr, "gen: no op definitions match\n");
     exit(2);
